@@ -238,9 +238,13 @@ def gen(rng, tier, dist):
                 t, sl = structured(rng); bump("structured")
                 # "b ... c" takes a preceding value of b's type for the "a" of "a b ... c"
                 # (doc/Guide.adoc): keep such a neighbour away unless it is meant
+                # (after an array the scanner takes the array's last element: finding
+                # range-after-array, generated on purpose now and then)
                 if " ... " in t and slots and slots[-1][0] == sl[-1][0]:
-                    text += "nil" + sep(rng)
-                    slots.append("N")
+                    after_array = text.rstrip(" \n\t").endswith("]")
+                    if not (after_array and not t.split(" ... ")[0].count(" ") and rng.random() < 0.5):
+                        text += "nil" + sep(rng)
+                        slots.append("N")
             else:
                 t, sl = word(rng)
                 while sl is None:
@@ -292,6 +296,12 @@ def nontrivial(case, impl):
     return ";" in f[2] and (b"%" in text or b"0x" in text or b"..." in text or b"e" in text)
 
 def classify(case, impl, failure):
+    """range-after-array: a range "b ... c" whose left neighbour is an array ending in a value of b's type"""
+    import re
+    text = bytes.fromhex(case.split(" ")[1]).decode("latin-1")
+    text = re.sub(r"%[^\n]*", " ", text)
+    if re.search(r"[0-9a-zA-Z'\"]h?\s*\]\s+[-+0-9'][^\s]*\s+\.\.\.", text):
+        return "range-after-array"
     return None
 
 TECHNIQUE = ("Coq proofs over the same recogniser models as C10 (token lemmas shared by checker and scanner, "
